@@ -1039,6 +1039,16 @@ func ruleHorzJoinOwner(rule string) func(*Ctx) {
 				if swapped != cs.swap && bad == "" {
 					bad = fmt.Sprintf("%s: point lists swapped=%v, want %v", cs.name, swapped, cs.swap)
 				}
+				// the split is recorded on the old ring in every case (checkSplitOwner later searches owners through it)
+				recorded := false
+				for _, s := range p.stores {
+					if strings.HasSuffix(s.addr, ".splits") && strings.HasPrefix(s.val.expr, "builtin.append(") {
+						recorded = true
+					}
+				}
+				if !recorded && bad == "" {
+					bad = cs.name + ": the new ring is not recorded in the old ring's splits list"
+				}
 			}
 			if n == 0 && bad == "" {
 				bad = "no self-join path found"
@@ -1186,5 +1196,182 @@ func ruleLineExtractor(rule string) func(*Ctx) {
 		c.check(bad == "", rule, rule+":(RectClipLines64).Execute:results-from-extractor", g.Pos(), "(RectClipLines64).Execute",
 			"only r.getPath(op) results are appended (no 'bounds contained -> return the input' shortcut)", bad,
 			"bounds alone cannot tell whether a line lies inside; only the line machine's output is a clipped line")
+	}
+}
+
+// ruleGrowingList: buildTree and buildPaths iterate over outrecList while cleanCollinear/fixSelfIntersects may
+// append new records to it (doSplitOp -> newOutRec): the loop bound must be re-read on every iteration.
+func ruleGrowingList(rule string) func(*Ctx) {
+	return func(c *Ctx) {
+		g := c.callgraphVTA()
+		grow := c.fn("(clipperBase).newOutRec")
+		for _, name := range []string{"(clipperBase).buildTree", "(clipperBase).buildPaths"} {
+			f := c.fn(name)
+			if !reachable(g, []*ssa.Function{f})[grow] {
+				c.pass(rule, fmt.Sprintf("%s:%s:bound", rule, name), f.Pos(), name, "newOutRec is not reachable from the loop: the list cannot grow")
+				continue
+			}
+			bad := "no loop over outrecList found"
+			for _, l := range naturalLoops(f) {
+				ifi, ok := l.header.Instrs[len(l.header.Instrs)-1].(*ssa.If)
+				if !ok {
+					continue
+				}
+				cmp, ok := ifi.Cond.(*ssa.BinOp)
+				if !ok || cmp.Op != token.LSS {
+					continue
+				}
+				bad = ""
+				call, ok := cmp.Y.(*ssa.Call)
+				if !ok {
+					bad = "the loop bound is not len(c.outrecList) evaluated in the loop condition: " + exprOf(cmp.Y)
+				} else if bi, ok := call.Call.Value.(*ssa.Builtin); !ok || bi.Name() != "len" || !isFieldLoadOf(call.Call.Args[0], "clipperBase", "outrecList") {
+					bad = "the loop bound is not len(c.outrecList)"
+				} else if !l.blocks[call.Block()] {
+					bad = "len(c.outrecList) is read once before the loop: records appended while iterating (doSplitOp) are never visited"
+				}
+			}
+			c.check(bad == "", rule, fmt.Sprintf("%s:%s:bound", rule, name), f.Pos(), name,
+				"the loop re-reads len(c.outrecList) on every iteration (records split off during clean-up are visited)", bad,
+				"self-intersection repair appends new output records while the solution is being built; a hoisted bound drops them from the tree (or the flat result), so tree and flat results differ")
+		}
+	}
+}
+
+// ruleLineScanStart: C11.start — executeInternalPath64 looks ahead (advancing i) to classify a start vertex lying on
+// the boundary; the main scan must nevertheless start at index 1. Decided by a must-constant dataflow on the
+// address-taken local i: on every edge entering the main loop from outside, i is definitely 1.
+func ruleLineScanStart(rule string) func(*Ctx) {
+	return func(c *Ctx) {
+		f := c.fn("(RectClip64).executeInternalPath64")
+		var iAlloc *ssa.Alloc
+		var mainLoop *loopInfo
+		for _, ci := range callsTo(c, f, "(RectClip64).getNextLocation") {
+			for _, a := range ci.Common().Args {
+				if al, ok := a.(*ssa.Alloc); ok && al.Comment == "i" {
+					iAlloc = al
+				}
+			}
+			for _, l := range naturalLoops(f) {
+				if l.blocks[ci.Block()] && (mainLoop == nil || len(l.blocks) < len(mainLoop.blocks)) {
+					mainLoop = l
+				}
+			}
+		}
+		if iAlloc == nil || mainLoop == nil {
+			fatalf("executeInternalPath64: scan index or main loop not found")
+		}
+		// forward must-constant analysis: state 1 = "i == 1", 0 = unknown
+		out := map[*ssa.BasicBlock]int{}
+		for _, b := range f.Blocks {
+			out[b] = 1 // optimistic
+		}
+		transfer := func(b *ssa.BasicBlock, in int) int {
+			st := in
+			for _, ins := range b.Instrs {
+				switch x := ins.(type) {
+				case *ssa.Store:
+					if x.Addr == ssa.Value(iAlloc) {
+						if isConstInt(x.Val, 1) {
+							st = 1
+						} else {
+							st = 0
+						}
+					}
+				case ssa.CallInstruction:
+					for _, a := range x.Common().Args {
+						if a == ssa.Value(iAlloc) {
+							st = 0
+						}
+					}
+				}
+			}
+			return st
+		}
+		for changed := true; changed; {
+			changed = false
+			for _, b := range f.Blocks {
+				in := 1
+				if b == f.Blocks[0] {
+					in = 0
+				}
+				for _, p := range b.Preds {
+					if out[p] == 0 {
+						in = 0
+					}
+				}
+				if o := transfer(b, in); o != out[b] {
+					out[b] = o
+					changed = true
+				}
+			}
+		}
+		bad := ""
+		n := 0
+		for _, p := range mainLoop.header.Preds {
+			if mainLoop.blocks[p] {
+				continue
+			}
+			n++
+			if out[p] != 1 {
+				bad = "on a path entering the main scan (through the block at " + c.pos(p.Instrs[0].Pos()) + ") the scan index is not definitely 1: the look-ahead's position leaks into the scan and the vertices it skipped are never clipped"
+			}
+		}
+		c.check(bad == "" && n > 0, rule, rule+":executeInternalPath64:scan-starts-at-1", mainLoop.header.Instrs[0].Pos(), "(RectClip64).executeInternalPath64",
+			"on every entry into the main scan the index is definitely 1 (the look-ahead for a boundary start vertex is rewound)", bad,
+			"a polyline whose first vertices lie exactly on the rectangle boundary must still be clipped from its second vertex on; otherwise the chord between boundary vertices is lost")
+	}
+}
+
+// ruleHorzOpenEnd: C09.horz — an open path's terminal horizontal edge must consult the range test before
+// intersecting a further edge on the scanline (it ends at its end point, not at the next maxima vertex).
+func ruleHorzOpenEnd(rule string) func(*Ctx) {
+	return func(c *Ctx) {
+		f := c.fn("(clipperBase).doHorizontal")
+		// inner loop: the one that calls intersectEdges
+		var inner *loopInfo
+		for _, ci := range callsTo(c, f, "(clipperBase).intersectEdges") {
+			for _, l := range naturalLoops(f) {
+				if l.blocks[ci.Block()] && (inner == nil || len(l.blocks) < len(inner.blocks)) {
+					inner = l
+				}
+			}
+		}
+		if inner == nil {
+			fatalf("doHorizontal: edge loop not found")
+		}
+		ll := inner
+		ex := &explorer{c: c, f: f, atoms: map[string]absVal{"isOpenEnd(horz)": boolVal(true)}, maxPaths: 20000,
+			atomFn: func(e string) (absVal, bool) {
+				// the horizontal ends at the maxima vertex it was given: vertexMax == horz.vertexTop
+				if strings.Contains(e, "!= horz.vertexTop)") && strings.HasPrefix(e, "(") && !strings.Contains(e, "ae.") {
+					return boolVal(false), true
+				}
+				return absVal{}, false
+			}, stop: func(b *ssa.BasicBlock) bool { return !ll.blocks[b] }}
+		outs := ex.explore(inner.header)
+		if ex.overflow {
+			fatalf("doHorizontal: path explosion")
+		}
+		bad := ""
+		n := 0
+		for _, p := range outs {
+			if !p.called("(clipperBase).intersectEdges") {
+				continue
+			}
+			n++
+			ranged := false
+			for _, cd := range p.conds {
+				if strings.Contains(cd.expr, ".curX > ") || strings.Contains(cd.expr, ".curX < ") {
+					ranged = true
+				}
+			}
+			if !ranged {
+				bad = "an open-ended horizontal edge intersects a further edge without the range test (ae.curX beyond the edge's end) having been evaluated: path [" + tail(p.condString(), 200) + "]"
+			}
+		}
+		c.check(bad == "" && n > 0, rule, rule+":doHorizontal:open-end-range", inner.header.Instrs[0].Pos(), "(clipperBase).doHorizontal",
+			fmt.Sprintf("every one of the %d intersecting paths of an open-ended horizontal first tests whether the next edge lies beyond the horizontal's end", n), bad,
+			"an open path's last segment ends at its end point: without the range test the sweep runs on to the next closed edge and the open solution extends past the subject line")
 	}
 }
